@@ -429,6 +429,52 @@ def r_iter_positions(F, R, cat=None):
                         why.append("computed from %s" % c.org.describe((r, p)))
             R.check("R-ITER", b.label(), ok, construct="looked-up position comes from the range iterator",
                     where=e.where(), detail="; ".join(sorted(set(why))))
+    # a method that moves the cursor by assigning the range (`self.1 = a..self.1.end`): the range
+    # is region-absolute, so the new start continues from the old one (old start + k, possibly
+    # capped by the end); a start computed without the old start is item-relative
+    from expr import nobb, lin
+    for b in F.bodies.values():
+        if b.self_adt not in types or b.kind != "AssocFn" or b.in_tests() or b.derived:
+            continue
+        a = F.adts.get(b.self_adt)
+        if not a or not a.get("variants"):
+            continue
+        rfields = [f["name"] for f in a["variants"][0]["fields"] if "ops::Range<" in f["ty"]["s"]]
+        if not rfields:
+            continue
+        ctx = Ctx(b)
+        for bi in sorted(b.live_blocks()):
+            for si, st in enumerate(b.blocks[bi]["stmts"]):
+                if st["k"] != "assign" or not st["place"]["p"]:
+                    continue
+                tg = [(r, p) for (r, p) in ctx.org.place(st["place"]) if r == ("arg", 1) and p and p[0][2:] in rfields]
+                if not tg:
+                    continue
+                (r, p) = tg[0]
+                old_start = ("place", b.key, ("arg", 1), (p[0], "f:start"))
+                val = nobb(trees(ctx, ctx.org.rvalue(st["rv"], bi, si)))
+                if len(p) == 1 and val[0] == "agg" and val[1] == "Range::Range" and len(val[2]) == 2:
+                    new_start = val[2][0]
+                elif len(p) == 2 and p[1] == "f:start":
+                    new_start = val
+                else:
+                    continue
+                n += 1
+                R.saw(b)
+                mentions = any(nd == old_start for nd in walk(new_start))
+                if mentions:
+                    d = lin(new_start)
+                    if d.get(old_start) == 1:
+                        R.check("R-ITER", b.label(), True, construct="the cursor continues from its old position",
+                                where="%s:%s" % (b.file, st["line"]), detail="new start %s" % show(new_start)[:80])
+                    else:
+                        R.undecided_site("R-ITER", b.label(), "cursor reassigned to %s" % show(new_start)[:80])
+                else:
+                    R.check("R-ITER", b.label(), False, construct="the cursor continues from its old position",
+                            where="%s:%s" % (b.file, st["line"]),
+                            detail="the range's start is set to %s, which does not contain the old start: the range is "
+                                   "absolute in the region, so the cursor jumps to another item's elements unless the "
+                                   "item is the region's first" % show(new_start)[:80])
     R.floor("R-ITER", "position lookups in read-item iterators", n, 1)
 
 
